@@ -260,7 +260,7 @@ func cmdCheck(args []string) int {
 	work := filepath.Join(os.TempDir(), fmt.Sprintf("hopvc.%d", os.Getpid()))
 	defer os.RemoveAll(work)
 	// discharge, all functions in parallel (bounded by solver slots)
-	slots := make(chan struct{}, 6)
+	slots := make(chan struct{}, 5)
 	for _, t := range tasks {
 		if t.rep == nil {
 			continue
